@@ -168,5 +168,7 @@ def brief_call(c):
     r = repr(content)
     if len(r) > 60:
         r = r[:40] + f'...<{len(r)} chars>'
+    if c.get('container'):
+        r = f"<{c['container']} of> {r}"
     kw = ', '.join(f'{k}={v!r}' for k, v in c['kw'].items())
     return f"{c['api']}({r}{', ' if kw else ''}{kw})"
